@@ -100,14 +100,15 @@ def only_functions(res, prefixes):
 def c01(m, tier):
     return _pair(m, [LDG], ['F-PAIR.N', 'F-PAIR.S'], {'F-PAIR.N': 30, 'F-PAIR.S': 5}) + [
         rules_struct.rule_insertion_guard(m), rules_struct.rule_hasedge(m), rules_struct.rule_full_loops(m),
-        rules_struct.rule_observers(m), rules_decl.rule_encapsulation(m), rules_struct.rule_bulk_complete(m)]
+        rules_struct.rule_observers(m), rules_decl.rule_encapsulation(m), rules_struct.rule_bulk_complete(m),
+        rules_struct.rule_forwarding(m), rules_struct.rule_observer_loops(m)]
 
 
 def c02(m, tier):
     return _pair(m, [LUG], ['F-PAIR.M', 'F-PAIR.N', 'F-KEY'], {'F-PAIR.M': 20, 'F-PAIR.N': 20, 'F-KEY': 15}) + [
         rules_struct.rule_ordered_edge(m), rules_struct.rule_selfloop_convention(m), rules_struct.rule_insertion_guard(m),
         rules_struct.rule_hasedge(m), rules_struct.rule_full_loops(m), rules_struct.rule_observers(m),
-        rules_decl.rule_encapsulation(m), rules_struct.rule_bulk_complete(m)]
+        rules_decl.rule_encapsulation(m), rules_struct.rule_bulk_complete(m), rules_struct.rule_observer_loops(m)]
 
 
 def c03(m, tier):
@@ -121,7 +122,8 @@ def c04(m, tier):
                  {'F-PAIR.N': 40, 'F-PAIR.L': 30, 'F-PAIR.T': 20, 'F-PAIR.M': 20, 'F-KEY': 20}) + [
         rules_struct.rule_positive_multiplicity(m), rules_struct.rule_insertion_guard(m),
         rules_struct.rule_observers(m), rules_struct.rule_selfloop_convention(m), rules_struct.rule_label_writes(m),
-        rules_struct.rule_bulk_complete(m), rules_struct.rule_setters(m), rules_struct.rule_label_subscripts(m)]
+        rules_struct.rule_bulk_complete(m), rules_struct.rule_setters(m), rules_struct.rule_label_subscripts(m),
+        rules_struct.rule_forwarding(m), rules_struct.rule_observer_loops(m)]
 
 
 def c05(m, tier):
@@ -129,7 +131,8 @@ def c05(m, tier):
                  {'F-PAIR.T': 12, 'F-PAIR.L': 30, 'F-PAIR.N': 40, 'F-KEY': 15}) + [
         rules_struct.rule_insertion_guard(m), rules_struct.rule_observers(m), rules_struct.rule_label_writes(m),
         rules_decl.rule_encapsulation(m), rules_val.rule_getlabel(m), rules_struct.rule_bulk_complete(m),
-        rules_struct.rule_setters(m), rules_struct.rule_label_subscripts(m)]
+        rules_struct.rule_setters(m), rules_struct.rule_label_subscripts(m), rules_struct.rule_forwarding(m),
+        rules_struct.rule_observer_loops(m)]
 
 
 def c06(m, tier):
@@ -184,7 +187,7 @@ def c17(m, tier):
 def c11(m, tier):
     wl, bound, heap = rules_wl.run_searches(m, {'S-BFS', 'S-BFS-ALL'})
     wl.require_sites(100, 'schema facts')
-    return [wl, rules_wl.rule_wrappers(m), rules_val.rule_val(m, val_engine(m))]
+    return [wl, rules_wl.rule_wrappers(m), rules_wl.rule_enumpaths(m), rules_struct.rule_forwarding(m), rules_val.rule_val(m, val_engine(m))]
 
 
 def c12(m, tier):
